@@ -26,7 +26,7 @@ RULE = ("one evaluation = (match program, subject). Programs have 1-5 cases; eac
         "dropped/added, container or class changed) or random values. Non-trivial = some pattern of the "
         "program has depth >= 2, a guard, :as or |; distinct by (program text, subject).")
 FLOOR = {"quick": 1000, "thorough": 1000}
-BUDGET = {"quick": 26, "thorough": 480}
+BUDGET = {"quick": 24, "thorough": 480}
 CASE_TIMEOUT = 20
 NEEDS_EVENTS = True
 ANCHORS = ["hy.core.result_macros:compile_match_expression",
